@@ -35,9 +35,9 @@ import os, sys
 claimed = sys.argv[1:]
 if "C14" in claimed:
     chk("C14", "fsim", "fault_enumeration",
-        "Every registered feature-map class, the serialisable evaluator and every model composition of the zoo is dumped and reloaded through the package's own entry points on a simulated file system; every raw write index is failed (ENOSPC, sticky), every raw read index is failed (EIO), short reads/writes and open errors are injected, files are re-loaded in a fresh interpreter under another PYTHONHASHSEED, and seeded op histories (overwrite, re-dump of loaded objects, faults, user subclass definitions, objects held across later I/O, dump/load under changed NumPy global state; a quarter of them on a real scratch directory so that memory-mapped loads are exercised) are checked against a path->object reference model; rejection cases are repeated in an interpreter started with -O; every enumerated object is also loaded under relative names (simulated working directory), under the other / a neutral / no extension with the format stated, and with every environment variable the package is seen to read pointing at look-alike files; two-process restarts let a writer process dump and a reader process that has built and used objects of its own load. Exhaustive over fault positions for the enumerated objects (incl. every parameter-array layout, float32 parameters and inputs), sampled over histories.",
+        "Every registered feature-map class, the serialisable evaluator and every model composition of the zoo is dumped and reloaded through the package's own entry points on a simulated file system; every raw write index is failed (ENOSPC, sticky), every raw read index is failed (EIO), short reads/writes and open errors are injected, files are re-loaded in a fresh interpreter under another PYTHONHASHSEED, and seeded op histories (overwrite, re-dump of loaded objects, faults, user subclass definitions, objects held across later I/O, dump/load under changed NumPy global state; a quarter of them on a real scratch directory so that memory-mapped loads are exercised) are checked against a path->object reference model; rejection cases are repeated in an interpreter started with -O; every enumerated object is also loaded under relative names (simulated working directory), under the other / a neutral / no extension with the format stated, and with every environment variable the package is seen to read pointing at look-alike files; two-process restarts let a writer process dump and a reader process that has built and used objects of its own load. Two or three client threads of one process save and load their own files concurrently under a seeded scheduler that pre-empts at every operation on the simulated tree (open, raw read/write, close, rename, remove, exists, stat), with write faults belonging to one client while the others run; each client must see what it would see alone. Exhaustive over fault positions for the enumerated objects (incl. every parameter-array layout, float32 parameters and inputs), sampled over histories.",
         "Trusts CPython io.Buffered*/TextIOWrapper, PyYAML, joblib as real components; models are synthetic; no power-loss semantics (the code never syncs and the property does not promise it); HDF5 analyzer files are outside the in-memory layer.",
-        "deterministic simulation: in-memory file system under builtins.open with enumerated I/O fault injection, process-restart fault, seeded operation histories against a reference model",
+        "deterministic simulation: in-memory file system under builtins.open with enumerated I/O fault injection, process-restart fault, seeded operation histories against a reference model, seeded interleaving of concurrent client threads at file-system operations",
         "DESIGN.md §3.3")
 else: PENDING["C14"]=1
 if "C16" in claimed:
@@ -49,14 +49,14 @@ if "C16" in claimed:
 else: PENDING["C16"]=1
 if "C09" in claimed:
     chk("C09", "histsim", "exploration",
-        "Seeded call histories on long-lived calculators, generators, plans and evaluators (batched vs single density matrices, block-size changes incl. grids above the block cap, repeats, spin/molecule/grid/model interleavings, several live objects of one kind, forces between energy calls, aliasing, workspace reuse and buffers overwritten after return, look-alike inputs, allocator-content perturbation) are executed on the real code and compared call by call with the answers of fresh objects; calls are interrupted at seeded points (injected MemoryError / KeyboardInterrupt at the k-th Python line inside the package) and every later call on the same objects is still compared with fresh objects; the shallow fault points of the call that follows a configuration switch are enumerated (set-up phase in quick, whole call in thorough); all objects are dropped and collected between items of data-set loops; the calls of every fourth calculator history are re-made in a fresh interpreter in reverse order (module-level state); caller-owned inputs and option objects are digested before and after each call; optional settings (density threshold, angular cut-off, top exponent) vary per calculator, two differently configured calculators of one model share one grids object, one request is swept over every memory budget, and plans are called on sub-ranges of their samples and compared with the slice of the whole evaluation.",
+        "Seeded call histories on long-lived calculators, generators, plans and evaluators (batched vs single density matrices, block-size changes incl. grids above the block cap, repeats, spin/molecule/grid/model interleavings, several live objects of one kind, forces between energy calls, aliasing, workspace reuse and buffers overwritten after return, look-alike inputs, allocator-content perturbation) are executed on the real code and compared call by call with the answers of fresh objects; calls are interrupted at seeded points (injected MemoryError / KeyboardInterrupt at the k-th Python line inside the package) and every later call on the same objects is still compared with fresh objects; the shallow fault points of the call that follows a configuration switch are enumerated (set-up phase in quick, whole call in thorough); all objects are dropped and collected between items of data-set loops; the calls of every fourth calculator history are re-made in a fresh interpreter in reverse order (module-level state); caller-owned inputs and option objects are digested before and after each call; optional settings (density threshold, angular cut-off, top exponent) vary per calculator, two differently configured calculators of one model share one grids object, one request is swept over every memory budget, and plans are called on sub-ranges of their samples and compared with the slice of the whole evaluation. Kohn-Sham-object histories also swap the functional (set_mlxc, with or without initializer objects), run the package's ElectronAnalyzer.from_calc on the live object, and ask all four gradient drivers (restricted/unrestricted, with/without grid response) for their matrices after energy calls of either spin treatment; weave histories revisit one (spin treatment, molecule, grids) coordinate after the others moved; displaced, indefinite density matrices (derivative checks) are swept over every memory budget; analyzer objects are asked for several functionals, grids and quantities in sequence.",
         "Models are synthetic; molecules <= 3 atoms (plus one-atom 86 800-point grids); allocator perturbation via glibc M_PERTURB; an interrupted call is un-acknowledged (nothing is demanded of it); tolerance 1e-10 relative separates summation-order noise (1e-16) from stale-cache effects (>=1e-9).",
         "deterministic simulation: seeded operation histories with legal-perturbation injection (batching, blocking, aliasing, buffer reuse, allocator content) and failure injection at seeded points inside calls, against a fresh-object reference model",
         "DESIGN.md §3.2")
 else: PENDING["C09"]=1
 if "C10" in claimed:
     chk("C10", "simgomp", "exploration",
-        "The C back end of the working tree is compiled against a simulated OpenMP runtime (ucontext coroutines implementing the GOMP ABI; in the simtrace build every compiler-instrumented memory access is a pre-emption point) and each reachable entry point plus end-to-end integrator calls are run under seeded team sizes (incl. sweeps over every team from 2 to 24, teams smaller than omp_get_max_threads(), thread-count changes between calls, nested teams), scheduling strategies, chunk orders, allocator poison, per-thread floating-point environments, caller-side screening thresholds with near-first / far-first / interleaved point orders, production problem sizes and earlier calls in the same process; a conflict detector (shadow words per synchronisation epoch) directs dense pre-emption at region functions where two threads touch one word; every output is compared with the one-thread result of the same call.",
+        "The C back end of the working tree is compiled against a simulated OpenMP runtime (ucontext coroutines implementing the GOMP ABI; in the simtrace build every compiler-instrumented memory access is a pre-emption point) and each reachable entry point plus end-to-end integrator calls are run under seeded team sizes (incl. sweeps over every team from 2 to 24, teams smaller than omp_get_max_threads(), thread-count changes between calls, nested teams), scheduling strategies, chunk orders, allocator poison, per-thread floating-point environments, caller-side screening thresholds with near-first / far-first / interleaved point orders, production problem sizes, earlier calls in the same process and repeated passes on one Python-side object under another thread-count setting; thread-count queries of the package's Python code (pyscf.lib.num_threads seen from ciderpress modules) are answered by the simulated runtime; a conflict detector (shadow words per synchronisation epoch) directs dense pre-emption at region functions where two threads touch one word; every output is compared with the one-thread result of the same call.",
         "Sequentially consistent at access granularity; BLAS/libm calls are atomic steps; PySCF's own regions are simulated only where they run CiderPress call-backs (frac_lapl.c, slow SDMX generator: child process with the runtime pre-loaded) and run single-threaded elsewhere; FFTW is a naive-DFT stand-in (the wrapper's own loops are real); MPI paths do not run.",
         "deterministic simulation: simulated OpenMP runtime with a seeded scheduler deciding every interleaving (GOMP-call and memory-access pre-emption), team-size/team-limit/chunk-order/allocator fault injection, race-directed search, one-thread reference oracle",
         "DESIGN.md §3.1")
@@ -78,6 +78,6 @@ m = {
  ],
  "checks": checks,
  "not_applicable": sorted(na, key=lambda e: e["property_id"]),
- "notes": "fix: commits in /repo: 82c6c38 (OmegaMap code, C14), 047054a (sigma/tau clamped in place, C09), d4cf81c (vfeat scaled in place, C09), 84060c1 (stale index in nr_uks_nldf, C09), 416ce1f (batched NLDF potential from last cache, C09), 0de4126 (two-sample model evaluation raised, C09), c18ba20 (racy k loop in atc_reciprocal_convolution, C10), d990871 (reference energies not stored with a correlation kernel first, C16), 1ac148e (KernelEvaluator kept strided views, C14), ca0230b (half-initialised NLDF generator after an interrupted rebuild, C09), 0ad5255 (NULL pointer freed by a destructor after an interrupted constructor, C09), 670cafa (screened multi-contraction shells zeroed neighbouring rows in the SDMX radial loop: schedule-dependent result and heap overflow, C10), efb8e5b (rks_grad.get_vxc_nldf wrong for several density matrices in one call, C09). All are recorded as fixed in /verif/known_findings.json. No source hooks. See DESIGN.md.",
+ "notes": "fix: commits in /repo: 82c6c38 (OmegaMap code, C14), 047054a (sigma/tau clamped in place, C09), d4cf81c (vfeat scaled in place, C09), 84060c1 (stale index in nr_uks_nldf, C09), 416ce1f (batched NLDF potential from last cache, C09), 0de4126 (two-sample model evaluation raised, C09), c18ba20 (racy k loop in atc_reciprocal_convolution, C10), d990871 (reference energies not stored with a correlation kernel first, C16), 1ac148e (KernelEvaluator kept strided views, C14), ca0230b (half-initialised NLDF generator after an interrupted rebuild, C09), 0ad5255 (NULL pointer freed by a destructor after an interrupted constructor, C09), 670cafa (screened multi-contraction shells zeroed neighbouring rows in the SDMX radial loop: schedule-dependent result and heap overflow, C10), efb8e5b (rks_grad.get_vxc_nldf wrong for several density matrices in one call, C09). 2e5951d (ElectronAnalyzer.from_calc left the calculator's generators built for the temporary grids, C09), f81262b (rks_grad.get_vxc_full_response used a stale semilocal plan after an unrestricted call / build(), C09). All are recorded as fixed in /verif/known_findings.json. No source hooks. See DESIGN.md.",
 }
 json.dump(m, open("/verif/MANIFEST.json", "w"), indent=1)
